@@ -34,7 +34,7 @@ func TestC03(t *testing.T) {
 	r.ForEach("history", n, 8, func(i int, rng *rand.Rand) {
 		sb := e2e.NewSandbox(filepath.Join(r.Scratch(), fmt.Sprintf("h%d", i)))
 		defer lib.RemoveAll(sb.Work)
-		state := e2e.Generate(rng, e2e.GenOpts{Tools: true, DirOuts: true, PostBuild: true})
+		state := e2e.Generate(rng, e2e.GenOpts{Tools: true, DirOuts: true, PostBuild: true, AbsorbingTools: true, FilegroupDeps: true})
 		state.VLog = sb.VLog
 		if err := state.Materialize(sb.Repo); err != nil {
 			panic(err)
@@ -52,7 +52,7 @@ func TestC03(t *testing.T) {
 					wiped = true
 					edit = e2e.Edit{Kind: "wipe-plz-out"}
 				} else {
-					next, e := e2e.ApplyRandomEdit(rng, state, e2e.EditOpts{AllowRevert: true, History: history})
+					next, e := e2e.ApplyRandomEdit(rng, state, e2e.EditOpts{AllowRevert: true, History: history, PreferToolSrc: true})
 					if err := next.Sync(sb.Repo, state); err != nil {
 						panic(err)
 					}
